@@ -56,15 +56,19 @@ Qed.
 
 Lemma step_slots_ok H C s r : slots_ok s -> slots_ok (snd (step H C s r)).
 Proof.
-  intros Hs. destruct r as [slot file fl|slot file fl|slot file off len wfl|slot file mode off len|file ws ns|slot]; cbn [step].
-  - destruct (c_no_open C); cbn [snd]; [exact Hs|]. apply set_slot_ok; [apply open_effect_ok; exact Hs|apply new_hdl_ok].
+  intros Hs. destruct r as [slot file fl|slot file fl|slot file off len wfl|slot file mode off len|file ws ns|slot rfile]; cbn [step].
+  - destruct (c_no_open C); cbn [snd]; [exact Hs|].
+    destruct (fx_open (c_fx C) && c_seal C && has fl O_TRUNC); cbn [snd]; [exact Hs|].
+    apply set_slot_ok; [apply open_effect_ok; exact Hs|apply new_hdl_ok].
   - destruct (has fl O_EXCL); cbn [snd]; [exact Hs|].
+    destruct (fx_create (c_fx C) && c_seal C && has fl O_TRUNC); cbn [snd]; [exact Hs|].
     destruct (c_no_open C); cbn [snd]; [apply open_effect_ok; exact Hs|].
     apply set_slot_ok; [apply open_effect_ok; exact Hs|apply new_hdl_ok].
   - destruct (get_data C s slot file) as [h0|] eqn:Eg; cbn [snd]; [|exact Hs].
     assert (Hs1 : slots_ok (if c_no_open C then s else set_slot s slot (Some (check_fd_flags h0 wfl)))).
     { destruct (c_no_open C); [exact Hs|]. apply set_slot_ok; [exact Hs|].
       apply check_fd_flags_ok. exact (get_data_ok _ _ _ _ _ Hs Eg). }
+    destruct (fx_append (c_fx C) && c_seal C && has wfl O_APPEND && negb (len =? 0)); cbn [snd]; [exact Hs1|].
     destruct (negb _); cbn [snd]; [exact Hs1|].
     destruct (len =? 0); cbn [snd]; [exact Hs1|].
     destruct (hd_acc _ =? 0); [destruct (I64_MAX <? off); cbn [snd]; exact Hs1|].
@@ -75,7 +79,8 @@ Proof.
   - destruct (ws && c_seal C); cbn [snd]; [exact Hs|]. destruct ws; cbn [snd]; [|exact Hs].
     destruct (ho_maxbytes H <? ns); cbn [snd]; [exact Hs|apply set_size_ok; exact Hs].
   - destruct (c_no_open C); cbn [snd]; [exact Hs|].
-    destruct (slots s slot); cbn [snd]; [apply set_slot_none_ok|]; exact Hs.
+    destruct (slots s slot) as [h|]; cbn [snd]; [|exact Hs].
+    destruct (hd_file h =? rfile); cbn [snd]; [apply set_slot_none_ok|]; exact Hs.
 Qed.
 
 Lemma seal_write_ok size off len :
@@ -106,23 +111,38 @@ Proof.
 Qed.
 
 (* one request of a sealed export outside the known class leaves every size unchanged *)
+(* the request is outside the known class, or the tree refuses its kind *)
+Definition covered (C : cfg) (r : req) : bool :=
+  negb (known r) ||
+  match r with
+  | Open _ _ _ => fx_open (c_fx C)
+  | Create _ _ _ => fx_create (c_fx C)
+  | Write _ _ _ _ _ => fx_append (c_fx C)
+  | _ => false
+  end.
+
 Lemma step_sealed_sizes H C s r :
-  c_seal C = true -> falloc_within H -> slots_ok s -> known r = false ->
+  c_seal C = true -> falloc_within H -> slots_ok s -> covered C r = true ->
   forall f, sizes (snd (step H C s r)) f = sizes s f.
 Proof.
-  intros Hseal Hf Hs Hk f.
-  destruct r as [slot file fl|slot file fl|slot file off len wfl|slot file mode off len|file ws ns|slot]; cbn [step known] in *.
-  - destruct (c_no_open C); cbn [snd]; [reflexivity|]. unfold open_effect. rewrite Hk. reflexivity.
-  - destruct (has fl O_EXCL); cbn [snd]; [reflexivity|]. unfold open_effect. rewrite Hk.
-    destruct (c_no_open C); reflexivity.
+  intros Hseal Hf Hs Hk f. unfold covered in Hk.
+  destruct r as [slot file fl|slot file fl|slot file off len wfl|slot file mode off len|file ws ns|slot rfile]; cbn [step known] in *.
+  - destruct (c_no_open C); cbn [snd]; [reflexivity|]. rewrite Hseal. unfold open_effect.
+    destruct (has fl O_TRUNC); destruct (fx_open (c_fx C)); cbn in Hk |- *; try discriminate; reflexivity.
+  - destruct (has fl O_EXCL); cbn [snd]; [reflexivity|]. rewrite Hseal. unfold open_effect.
+    destruct (has fl O_TRUNC); destruct (fx_create (c_fx C)); cbn in Hk |- *; try discriminate;
+      destruct (c_no_open C); reflexivity.
   - destruct (get_data C s slot file) as [h0|] eqn:Eg; cbn [snd]; [|reflexivity].
     rewrite Hseal.
     assert (Hsz : forall v, sizes (if c_no_open C then s else set_slot s slot (Some v)) f = sizes s f)
       by (intros v; destruct (c_no_open C); reflexivity).
+    destruct (fx_append (c_fx C) && true && has wfl O_APPEND && negb (len =? 0)) eqn:Efx; cbn [snd]; [apply Hsz|].
     destruct (seal_size_check true (sizes s file) off len 0 =? 0) eqn:Ec; cbn [negb]; cbn [snd]; [|apply Hsz].
-    destruct (len =? 0); cbn [snd]; [apply Hsz|].
+    destruct (len =? 0) eqn:El; cbn [snd]; [apply Hsz|].
     destruct (hd_acc _ =? 0); [destruct (I64_MAX <? off); cbn [snd]; apply Hsz|].
-    rewrite (check_fd_flags_append _ _ (get_data_ok _ _ _ _ _ Hs Eg)), Hk.
+    assert (Hna : has wfl O_APPEND = false).
+    { destruct (has wfl O_APPEND); [|reflexivity]. destruct (fx_append (c_fx C)); cbn in Hk, Efx; discriminate. }
+    rewrite (check_fd_flags_append _ _ (get_data_ok _ _ _ _ _ Hs Eg)), Hna.
     assert (Hc : seal_size_check true (sizes s file) off len 0 = 0) by lia.
     destruct (seal_write_ok _ _ _ Hc) as [Hle _].
     pose proof (pwrite_within H _ _ _ Hle) as Hp.
@@ -139,7 +159,8 @@ Proof.
     unfold set_size. cbn [sizes]. destruct (f =? file) eqn:E; [|reflexivity].
     assert (f = file) by lia. subst f. reflexivity.
   - rewrite Hseal. destruct ws; cbn [andb snd]; reflexivity.
-  - destruct (c_no_open C); cbn [snd]; [reflexivity|]. destruct (slots s slot); reflexivity.
+  - destruct (c_no_open C); cbn [snd]; [reflexivity|]. destruct (slots s slot) as [h|]; [|reflexivity].
+    destruct (hd_file h =? rfile); reflexivity.
 Qed.
 
 Lemma pair_eta {A B} (p : A * B) : p = (fst p, snd p).
@@ -152,18 +173,35 @@ Qed.
 
 (* the size invariant for all histories outside the known class *)
 Theorem sealed_sizes_partial H C : c_seal C = true -> falloc_within H ->
-  forall rs s, slots_ok s -> forallb (fun r => negb (known r)) rs = true ->
+  forall rs s, slots_ok s -> forallb (covered C) rs = true ->
   forall f, sizes (snd (run H C s rs)) f = sizes s f.
 Proof.
   intros Hseal Hf. induction rs as [|r t IH]; intros s Hs Hk f; [reflexivity|].
   cbn [forallb] in Hk. apply andb_true_iff in Hk. destruct Hk as [Hk1 Hk2].
   rewrite run_snd, IH; [|apply step_slots_ok; exact Hs|exact Hk2].
-  apply step_sealed_sizes; try assumption. apply negb_true_iff. exact Hk1.
+  apply step_sealed_sizes; assumption.
+Qed.
+
+(* corollaries: histories outside the known class on any tree; ALL histories on a tree with the three refusals *)
+Corollary sealed_sizes_outside_known H C : c_seal C = true -> falloc_within H ->
+  forall rs s, slots_ok s -> forallb (fun r => negb (known r)) rs = true ->
+  forall f, sizes (snd (run H C s rs)) f = sizes s f.
+Proof.
+  intros Hseal Hf rs s Hs Hk. apply sealed_sizes_partial; try assumption.
+  rewrite forallb_forall in *. intros r Hr. unfold covered. rewrite (Hk r Hr). reflexivity.
+Qed.
+
+Corollary sealed_sizes_full_when_fixed H C : c_seal C = true -> c_fx C = all_fixes -> falloc_within H ->
+  forall rs s, slots_ok s -> forall f, sizes (snd (run H C s rs)) f = sizes s f.
+Proof.
+  intros Hseal Hfx Hf rs s Hs. apply sealed_sizes_partial; try assumption.
+  rewrite forallb_forall. intros r _. unfold covered. rewrite Hfx.
+  destruct r; cbn; try reflexivity; apply orb_true_r.
 Qed.
 
 (* the full statement and its refutation *)
-Definition sealed_sizes_full : Prop :=
-  forall H C, c_seal C = true -> falloc_within H ->
+Definition sealed_sizes_full (fx : fixes) : Prop :=
+  forall H C, c_seal C = true -> c_fx C = fx -> falloc_within H ->
   forall rs s, slots_ok s -> forall f, sizes (snd (run H C s rs)) f = sizes s f.
 
 Lemma ldiff_bit_absurd mode b k :
@@ -207,31 +245,35 @@ Definition w_state : state := init_state [10].
 Lemma w_state_ok : slots_ok w_state.
 Proof. intros k h. cbn. discriminate. Qed.
 
-Lemma sealed_sizes_refuted : ~ sealed_sizes_full.
+Lemma sealed_sizes_refuted : ~ sealed_sizes_full no_fixes.
 Proof.
   intros Hfull.
-  specialize (Hfull tie_host (mk_cfg true false) eq_refl tie_host_falloc_within
+  specialize (Hfull tie_host (mk_cfg true false no_fixes) eq_refl eq_refl tie_host_falloc_within
                     [Open 0 0 (N.lor 2 O_TRUNC)] w_state w_state_ok 0).
   vm_compute in Hfull. discriminate.
 Qed.
 
+Lemma sealed_sizes_full_fixed : sealed_sizes_full all_fixes.
+Proof. intros H C Hs Hfx Hf. apply sealed_sizes_full_when_fixed; assumption. Qed.
+
 (* the three witnesses of D10 evaluated in the model (file of 10 bytes) *)
 Lemma witness_open_trunc :
-  sizes (snd (run tie_host (mk_cfg true false) w_state [Open 0 0 (N.lor 1 O_TRUNC)])) 0 = 0.
+  sizes (snd (run tie_host (mk_cfg true false no_fixes) w_state [Open 0 0 (N.lor 1 O_TRUNC)])) 0 = 0.
 Proof. reflexivity. Qed.
 Lemma witness_create_trunc :
-  sizes (snd (run tie_host (mk_cfg true true) w_state [Create 0 0 (N.lor 2 O_TRUNC)])) 0 = 0.
+  sizes (snd (run tie_host (mk_cfg true true no_fixes) w_state [Create 0 0 (N.lor 2 O_TRUNC)])) 0 = 0.
 Proof. reflexivity. Qed.
 Lemma witness_write_append :
-  fst (run tie_host (mk_cfg true false) w_state [Open 0 0 2; Write 0 0 0 4 (N.lor 2 O_APPEND)]) = [0; 0] /\
-  sizes (snd (run tie_host (mk_cfg true false) w_state [Open 0 0 2; Write 0 0 0 4 (N.lor 2 O_APPEND)])) 0 = 14.
+  fst (run tie_host (mk_cfg true false no_fixes) w_state [Open 0 0 2; Write 0 0 0 4 (N.lor 2 O_APPEND)]) = [0; 0] /\
+  sizes (snd (run tie_host (mk_cfg true false no_fixes) w_state [Open 0 0 2; Write 0 0 0 4 (N.lor 2 O_APPEND)])) 0 = 14.
 Proof. split; reflexivity. Qed.
 
 (* ------------------------------------------------------------------ within the size: as unsealed *)
 (* the request does not ask for anything beyond the current size (and is not a size-setting setattr) *)
 Definition stays_within (s : state) (r : req) : Prop :=
   match r with
-  | Write _ file off len _ => off + len <= sizes s file
+  | Open _ _ fl | Create _ _ fl => has fl O_TRUNC = false
+  | Write _ file off len wfl => off + len <= sizes s file /\ (has wfl O_APPEND = false \/ len = 0)
   | Fallocate _ file mode off len =>
     let op := clear_bits mode (N.lor FL_KEEP_SIZE FL_UNSHARE_RANGE) in
     (op = 0 \/ op = FL_PUNCH_HOLE \/ op = FL_ZERO_RANGE) /\ off + len <= sizes s file
@@ -261,15 +303,20 @@ Proof.
   - exfalso. destruct Hop as [Ho|[Ho|Ho]]; rewrite Ho in E2; discriminate.
 Qed.
 
-Theorem within_size_same H no_open s r :
+Theorem within_size_same H no_open fx s r :
   size_bounded s -> stays_within s r ->
-  step H (mk_cfg true no_open) s r = step H (mk_cfg false no_open) s r.
+  step H (mk_cfg true no_open fx) s r = step H (mk_cfg false no_open fx) s r.
 Proof.
   intros Hb Hw.
-  destruct r as [slot file fl|slot file fl|slot file off len wfl|slot file mode off len|file ws ns|slot];
-    cbn [step c_seal c_no_open stays_within] in *; try reflexivity.
-  - destruct (get_data _ s slot file) as [h0|]; [|reflexivity].
-    rewrite (seal_write_pass _ _ _ Hw (Hb file)). reflexivity.
+  destruct r as [slot file fl|slot file fl|slot file off len wfl|slot file mode off len|file ws ns|slot rfile];
+    cbn [step c_seal c_no_open c_fx stays_within] in *; try reflexivity.
+  - rewrite Hw, !andb_false_r. reflexivity.
+  - rewrite Hw, !andb_false_r. reflexivity.
+  - destruct (get_data _ s slot file) as [h0|]; [|reflexivity]. destruct Hw as [Hw Ha].
+    rewrite (seal_write_pass _ _ _ Hw (Hb file)).
+    assert (Hx : has wfl O_APPEND && negb (len =? 0) = false).
+    { destruct Ha as [-> | ->]; [reflexivity|apply andb_false_r]. }
+    rewrite <- !andb_assoc, Hx, !andb_false_r. reflexivity.
   - destruct (get_data _ s slot file) as [h0|]; [|reflexivity]. destruct Hw as [Hop Hle].
     rewrite (seal_falloc_pass _ _ _ _ Hop Hle (Hb file)). reflexivity.
   - subst ws. reflexivity.
@@ -287,24 +334,26 @@ Definition would_change (s : state) (r : req) : Prop :=
   | _ => False
   end.
 
-Theorem refused_no_effect H no_open s r :
+Theorem refused_no_effect H no_open fx s r :
   would_change s r ->
-  (get_data (mk_cfg true no_open) s (match r with Write k _ _ _ _ | Fallocate k _ _ _ _ => k | _ => 0 end)
+  (get_data (mk_cfg true no_open fx) s (match r with Write k _ _ _ _ | Fallocate k _ _ _ _ => k | _ => 0 end)
             (match r with Write _ f _ _ _ | Fallocate _ f _ _ _ => f | _ => 0 end) <> None \/
    match r with Setattr _ _ _ => True | _ => False end) ->
-  (fst (step H (mk_cfg true no_open) s r) = EPERM \/ fst (step H (mk_cfg true no_open) s r) = EINVAL) /\
-  forall f, sizes (snd (step H (mk_cfg true no_open) s r)) f = sizes s f.
+  (fst (step H (mk_cfg true no_open fx) s r) = EPERM \/ fst (step H (mk_cfg true no_open fx) s r) = EINVAL) /\
+  forall f, sizes (snd (step H (mk_cfg true no_open fx) s r)) f = sizes s f.
 Proof.
   intros Hw Hg.
-  destruct r as [slot file fl|slot file fl|slot file off len wfl|slot file mode off len|file ws ns|slot];
-    cbn [would_change] in Hw; try contradiction; cbn [step c_seal c_no_open].
+  destruct r as [slot file fl|slot file fl|slot file off len wfl|slot file mode off len|file ws ns|slot rfile];
+    cbn [would_change] in Hw; try contradiction; cbn [step c_seal c_no_open c_fx].
   - destruct Hg as [Hg|[]]. destruct (get_data _ s slot file) as [h0|]; [|contradiction].
     assert (Hc : seal_size_check true (sizes s file) off len 0 = EPERM \/ seal_size_check true (sizes s file) off len 0 = EINVAL).
     { unfold seal_size_check. destruct (U64_MAX <? off + len); [right; reflexivity|].
       destruct (sizes s file <? len + off) eqn:E; [left; reflexivity|lia]. }
     assert (Hnz : negb (seal_size_check true (sizes s file) off len 0 =? 0) = true)
       by (destruct Hc as [-> | ->]; reflexivity).
-    rewrite Hnz. cbn [fst snd]. split; [exact Hc|]. intros f. destruct no_open; reflexivity.
+    rewrite Hnz.
+    destruct (fx_append fx && true && has wfl O_APPEND && negb (len =? 0)); cbn [fst snd];
+      (split; [try exact Hc; left; reflexivity|intros f; destruct no_open; reflexivity]).
   - destruct Hg as [Hg|[]]. destruct (get_data _ s slot file) as [h0|]; [|contradiction].
     assert (Hc : seal_size_check false (sizes s file) off len mode = EPERM \/ seal_size_check false (sizes s file) off len mode = EINVAL).
     { unfold seal_size_check. destruct (U64_MAX <? off + len); [right; reflexivity|]. cbv zeta.
